@@ -29,8 +29,8 @@ type respCase struct {
 	Fails     bool              `json:"fails"`   // the page is expected to fail (by construction)
 	Custom    string            `json:"custom"`  // none | valid | missing | failing
 	// Defaults: NewTemplate(nil) over templates/*.tw.html, the documented defaults (no custom page, debug off)
-	Defaults bool `json:"defaults,omitempty"`
-	Note      string            `json:"note,omitempty"`
+	Defaults bool   `json:"defaults,omitempty"`
+	Note     string `json:"note,omitempty"`
 }
 
 func init() {
